@@ -11,6 +11,7 @@ package main
 
 import (
 	"fmt"
+	"os"
 	"go/ast"
 	"go/token"
 	"sort"
@@ -888,4 +889,76 @@ func factsC17() {
 		})
 	}
 	boolFact(g, "dispatcherRetriesRetired", retries, "dispatchConnection repeats the user lookup when GetSession reports a retired record (informational)")
+	// what the retry waits for. Either nothing (it spins until the terminator has removed the record), or a receive from
+	// a channel field of the record: then every composite literal that makes an ActiveUser must make that channel, and
+	// TerminateActiveUser must close it on every way out, after the entry was deleted - otherwise admission blocks for ever
+	waitField := ""
+	waitsOther := false
+	if dc := fnOf(sv, "dispatchConnection"); dc != nil {
+		ast.Inspect(dc.Body, func(n ast.Node) bool {
+			is, ok := n.(*ast.IfStmt)
+			if !ok {
+				return true
+			}
+			t := show(is.Cond)
+			if !(strings.Contains(t, "err ==") || strings.Contains(t, "errors.Is(err")) {
+				return true
+			}
+			jumps := false
+			for _, b := range is.Body.List {
+				if br, ok := b.(*ast.BranchStmt); ok && (br.Tok == token.GOTO || br.Tok == token.CONTINUE) {
+					jumps = true
+				}
+			}
+			if !jumps {
+				return true
+			}
+			for _, b := range is.Body.List {
+				switch x := b.(type) {
+				case *ast.BranchStmt:
+				case *ast.ExprStmt:
+					if u, ok := x.X.(*ast.UnaryExpr); ok && u.Op == token.ARROW && strings.HasPrefix(show(u.X), "user.") {
+						waitField = strings.TrimPrefix(show(u.X), "user.")
+					} else {
+						waitsOther = true
+					}
+				default:
+					waitsOther = true
+				}
+			}
+			return true
+		})
+	}
+	waitOK := !waitsOther
+	src := "dispatchConnection's retry after a retired record waits for nothing before it looks the user up again"
+	if waitField != "" && waitOK {
+		src = "dispatchConnection's retry receives from user." + waitField + "; every &ActiveUser{...} literal sets " + waitField + ": make(chan struct{}); TerminateActiveUser closes it (through a sync.Once) as its last statement, unconditionally, after the delete"
+		made := 0
+		lits := 0
+		for _, f := range pkgs[sv].funcs {
+			ast.Inspect(f.Body, func(n ast.Node) bool {
+				cl, ok := n.(*ast.CompositeLit)
+				if !ok || show(cl.Type) != "ActiveUser" {
+					return true
+				}
+				lits++
+				for _, e := range cl.Elts {
+					if kv, ok := e.(*ast.KeyValueExpr); ok && show(kv.Key) == waitField && show(kv.Value) == "make(chan struct{})" {
+						made++
+					}
+				}
+				return true
+			})
+		}
+		closes := false
+		if tf := fnOf(sv, "userPanel.TerminateActiveUser"); tf != nil && len(tf.Body.List) > 0 {
+			last := show(tf.Body.List[len(tf.Body.List)-1])
+			closes = strings.Contains(last, ".Do(func() { close(user."+waitField+") })") && count(rawEvents(tf), "return", `.`) == 0
+		}
+		waitOK = lits > 0 && made == lits && closes
+		if os.Getenv("EXTRACT_DEBUG") != "" {
+			fmt.Fprintln(os.Stderr, "retryWait:", lits, made, closes)
+		}
+	}
+	boolFact(g, "retryWaitIsSignalled", waitOK, src)
 }
